@@ -129,6 +129,9 @@ def base_configs():
                   {"label": "d2", "mc": ["m1"], "maxis": A2, "gaxis": [2.0, 3.0, 4.0]},
                   {"label": "d3", "mc": ["m1"], "maxis": A3, "gaxis": [3.0, 4.0, 5.0], "scale": "sc3"}],
         groups={"default": {"link_clp": True}})
+    add("expression-chain-forward", mcs={"m1": {"labels": ["s1", "s2"], "pars": ["kfast", "kslow"]}},
+        datasets=[{"label": "d1", "mc": ["m1"], "maxis": A3, "gaxis": G2, "scale": "sc1"}],
+        expr_params={"kfast": "$kmid * 2", "kmid": "$ktop + $kslow", "ktop": "$kslow * 3"}, expr_first=True)
     add("full-model-nnls",
         gmcs={"g1": {"labels": ["a", "b"]}},
         datasets=[{"label": "d1", "mc": ["m1"], "gmc": ["g1"], "maxis": A3, "gaxis": G2}],
